@@ -125,7 +125,7 @@ CLAIMED = {
             "not handed out) are outside the property.", "DESIGN.md section 6 C01"),
     "C02": ("Coq proof (budget invariant over all histories incl. save/reload, every populate_space) + differential correspondence",
             "C02_budget: length trials <= N in every reachable state; C02_retry_reuses_trial: a retry re-issues an existing trial; C02_stopped: at the budget with no retry pending the answer is STOPPED "
-            "and nothing changes. Tie: same lifecycle correspondence on random/grid/Bayesian oracles with N in 1..6, remaining_trials() compared after every call.",
+            "and nothing changes. Tie: same lifecycle correspondence on random/grid/Bayesian oracles with N in 1..6, remaining_trials() compared after every call; plus resumed projects whose new oracle has max_trials <= the number of trials already held (every request STOPPED, no new trial; implementation-level clause, the model keeps N fixed).",
             "Trusted: as C01.", "DESIGN.md section 6 C02"),
     "C03": ("Coq proof (end_trial outcome theorem, absorbing final states over all runs, abort iff streak) + differential correspondence",
             "C03_end_outcome (INVALID re-queued while runs <= max_retries, FAILED afterwards, COMPLETED carries the score of the payload sent), C03_retry_first, C03_reissue_same_values (same values, fresh metrics), "
